@@ -102,5 +102,119 @@ example : HeapKindOK { cells := #[.arr [.arr 1], .arr [.arr 0, .float 2], .float
   | 2 => simp [Heap.arrAt, Heap.get] at hv
   | n + 3 => simp [Heap.arrAt, Heap.get] at hv
 
+/-! ### machine level: the roots handed over at a return are complete -/
+
+/-- everything the machine still holds after a return: operand stack (with the result pushed), constants, globals, `last` -/
+def held (s : VM) : List Value := s.stack.toList ++ s.cvals.toList ++ s.globals.toList ++ [s.last]
+
+theorem Reach.mono {h : Heap} {man : List Nat} {r1 r2 : List Value} (hsub : ∀ v ∈ r1, v.addr? = none ∨ v ∈ r2) {a : Nat}
+    (ha : Reach h man r1 a) : Reach h man r2 a := by
+  induction ha with
+  | root v a hv ha hm =>
+    rcases hsub v hv with h0 | h0
+    · rw [h0] at ha; cases ha
+    · exact .root v a h0 ha hm
+  | step x v b _ hv hb hm ih => exact .step x v b ih hv hb hm
+
+/-- ROOTS ARE COMPLETE AT A RETURN: every value the machine holds after `Return`/`ReturnValue` (the
+    caller's part of the stack with the result pushed, the constants, the globals and the
+    last-popped register) is among the roots handed to the collector, provided the result and
+    `last` are in the extra roots (they are: `[s.last, v]`; for `Return` the result is null).
+    Hence, with `C03_collect_preserves`: every managed object reachable from the machine state
+    after the return is still managed and has kept its contents. -/
+theorem C03_return_roots_complete (s : VM) (result : Value) (extra : List Value) (s' : VM)
+    (hres : result.addr? = none ∨ result ∈ extra) (hlast : s.last ∈ extra)
+    (h : doReturn s result extra = .next s') (hk : HeapKindOK s.mem.heap)
+    (hr : ∀ v ∈ (s.stack.extract 0 s.bp).toList ++ s.cvals.toList ++ s.globals.toList ++ extra, KindOK s.mem.heap v)
+    (a : Nat) (ha : Reach s.mem.heap s.mem.managed (held s') a) :
+    s'.mem.heap.get a = s.mem.heap.get a ∧ a ∈ s'.mem.managed := by
+  unfold doReturn at h
+  cases hf : s.frames with
+  | nil => simp [hf] at h
+  | cons fr rest =>
+    simp only [hf] at h
+    split at h
+    · cases h
+    · rename_i hsz
+      injection h with h
+      subst h
+      have ham : a ∈ s.mem.managed := by
+        cases ha with
+        | root _ _ _ _ hm => exact hm
+        | step _ _ _ _ _ _ hm => exact hm
+      have hne : s.mem.managed.isEmpty = false := by
+        cases hm : s.mem.managed with
+        | nil => rw [hm] at ham; cases ham
+        | cons _ _ => rfl
+      simp only [hne, Bool.false_eq_true, ↓reduceIte, held, VM.roots] at ha ⊢
+      have ha' : Reach s.mem.heap s.mem.managed ((s.stack.extract 0 s.bp).toList ++ s.cvals.toList ++ s.globals.toList ++ extra) a := by
+        refine Reach.mono ?_ ha
+        intro v hv
+        simp only [List.mem_append, Array.toList_push, List.mem_singleton] at hv ⊢
+        rcases hv with (((hv | hv) | hv) | hv) | hv
+        · exact .inr (.inl (.inl (.inl hv)))
+        · subst hv
+          rcases hres with h0 | h0
+          · exact .inl h0
+          · exact .inr (.inr h0)
+        · exact .inr (.inl (.inl (.inr hv)))
+        · exact .inr (.inl (.inr hv))
+        · subst hv; exact .inr (.inr hlast)
+      have := C03_collect_preserves s.mem _ hk hr a (.inl ha')
+      exact ⟨this.1, this.2 ham⟩
+
+/-- the two return instructions pass complete roots: after `ReturnValue` / `Return` every managed object
+    reachable from anything the machine still holds is still managed, with its contents -/
+theorem C03_return_instructions_keep_reachable (i : Instr) (hi : i = .retv ∨ i = .ret) (ip' : Nat) (s s' : VM)
+    (h : exec i ip' s = .next s') (hk : HeapKindOK s.mem.heap)
+    (hr : ∀ v ∈ s.stack.toList ++ s.cvals.toList ++ s.globals.toList ++ [s.last], KindOK s.mem.heap v)
+    (a : Nat) (ha : Reach s.mem.heap s.mem.managed (held s') a) :
+    s'.mem.heap.get a = s.mem.heap.get a ∧ a ∈ s'.mem.managed := by
+  have hsubstack : ∀ (st : Array Value) (n : Nat) v, v ∈ (st.extract 0 n).toList → v ∈ st.toList := by
+    intro st n v hv
+    simp only [Array.toList_extract] at hv
+    rw [List.extract_eq_take_drop] at hv
+    exact List.mem_of_mem_drop (List.mem_of_mem_take hv)
+  rcases hi with rfl | rfl
+  · simp only [exec] at h
+    cases hp : pop1 s.stack with
+    | none => simp [hp] at h
+    | some q =>
+      obtain ⟨v, st⟩ := q
+      simp only [hp] at h
+      have hv : v ∈ s.stack.toList ∧ ∀ x ∈ st.toList, x ∈ s.stack.toList := by
+        unfold pop1 at hp
+        cases hb : s.stack.back? with
+        | none => simp [hb] at hp
+        | some w =>
+          simp only [hb, Option.some.injEq, Prod.mk.injEq] at hp
+          obtain ⟨h1, h2⟩ := hp
+          subst h1; subst h2
+          refine ⟨by simpa using Array.mem_of_back? hb, ?_⟩
+          intro x hx
+          simp only [Array.toList_pop] at hx
+          exact List.dropLast_subset _ hx
+      refine C03_return_roots_complete { s with ip := ip', stack := st } v [s.last, v] s' (.inr (by simp)) (by simp) h hk ?_ a ha
+      intro x hx
+      apply hr x
+      simp only [List.mem_append, List.mem_cons, List.not_mem_nil, or_false] at hx ⊢
+      rcases hx with ((hx | hx) | hx) | hx
+      · left; left; left; exact hv.2 x (hsubstack st _ x hx)
+      · left; left; right; exact hx
+      · left; right; exact hx
+      · rcases hx with hx | hx
+        · right; exact hx
+        · left; left; left; rw [hx]; exact hv.1
+  · simp only [exec] at h
+    refine C03_return_roots_complete { s with ip := ip' } .null [s.last] s' (.inl rfl) (by simp) h hk ?_ a ha
+    intro x hx
+    apply hr x
+    simp only [List.mem_append, List.mem_cons, List.not_mem_nil, or_false] at hx ⊢
+    rcases hx with ((hx | hx) | hx) | hx
+    · left; left; left; exact hsubstack s.stack _ x hx
+    · left; left; right; exact hx
+    · left; right; exact hx
+    · right; exact hx
+
 end C03
 end Nl
